@@ -16,7 +16,8 @@
    State: `cur`, the model's idea of what every pool value renders to.  The
    model steps through the trace: a call may change only what the property
    statement allows (HeapOps!MayChange: the FIRST argument of a documented
-   mutator, nothing otherwise), and everything else - the other arguments and
+   mutator - a function of MutatorFns or an element / member assignment form of
+   MutatorForms -, nothing otherwise), and everything else - the other arguments and
    every pool value that was not passed at all - must be what it was.  A call
    that changed more is reported (@@BAD@@) and the model re-synchronises on
    the logged content so the rest of the trace is still checked.  The returned
@@ -45,7 +46,7 @@ Step ==
        [] Ev.op = "call" ->
             /\ cur' = Ev.post
             /\ Check(OnlyChanged(cur, Ev.post, MayChange(Ev.fn, Ev.args)),
-                     IF Ev.fn \in MutatorFns THEN "mutator-changed-more-than-its-target"
+                     IF Ev.fn \in Mutators THEN "mutator-changed-more-than-its-target"
                      ELSE "non-mutator-changed-a-value")
             /\ Check(ResultIndependent(Ev.fn, Ev.args, Range(Ev.is), Range(Ev.holds)),
                      "result-not-independent-of-its-argument")
